@@ -423,3 +423,24 @@ func c03QueryLoopShape(fd *ast.FuncDecl) (clamp, loop, cache bool) {
 	})
 	return
 }
+
+// c03AssignsPosOnEOF: the function has an `if` whose condition mentions io.EOF and whose body assigns the
+// iterator's position (`<x>.pos = …`).
+func c03AssignsPosOnEOF(fd *ast.FuncDecl) bool {
+	res := false
+	ast.Inspect(fd.Body, func(n ast.Node) bool {
+		is, ok := n.(*ast.IfStmt)
+		if !ok || !strings.Contains(c03Str(is.Cond), "io.EOF") {
+			return true
+		}
+		for _, st := range is.Body.List {
+			if as, ok := st.(*ast.AssignStmt); ok && len(as.Lhs) == 1 {
+				if se, ok := as.Lhs[0].(*ast.SelectorExpr); ok && se.Sel.Name == "pos" {
+					res = true
+				}
+			}
+		}
+		return true
+	})
+	return res
+}
